@@ -398,7 +398,9 @@ def gmres(A: LinearOperator, B: torch.Tensor,
 
         h[..., k + 1, k] = torch.linalg.norm(y, dim=-2).reshape(-1, ncols)
         if torch.any(h[..., k + 1, k]) != 0 and k != max_niter - 1:
-            qnew = y.reshape(-1, nr, ncols) / h[..., k + 1, k].reshape(-1, 1, ncols)
+            # columns whose Krylov space is exhausted (e.g. a zero right-hand side) get a zero vector, not nan
+            hnorm = _safedenom(h[..., k + 1, k].clone(), eps)
+            qnew = y.reshape(-1, nr, ncols) / hnorm.reshape(-1, 1, ncols)
             q[k + 1] = qnew.reshape(*batchdims, nr, ncols)
 
         b = torch.zeros((*batchdims, ncols, k + 1), dtype=A.dtype, device=A.device)
